@@ -54,10 +54,20 @@ def run(ctx, case):
     frames, hist = [], {}
     for u in range(nunits):
         f = "u%d" % u
-        dem = [ctx.real("dem_%s_%d" % (f, i), 0, 10 ** 6) for i in range(V)]
-        gop = [ctx.real("gop_%s_%d" % (f, i), 0, 10 ** 6) for i in range(V)]
-        oth = [ctx.real("oth_%s_%d" % (f, i), 0, 10 ** 6) for i in range(V)]
-        pev = [ctx.real("pev_%s_%d" % (f, i), 0, P) for i in range(V)]
+        if u == 0:
+            dem = [ctx.real("dem_%s_%d" % (f, i), 0, 10 ** 6) for i in range(V)]
+            gop = [ctx.real("gop_%s_%d" % (f, i), 0, 10 ** 6) for i in range(V)]
+            oth = [ctx.real("oth_%s_%d" % (f, i), 0, 10 ** 6) for i in range(V)]
+            pev = [ctx.real("pev_%s_%d" % (f, i), 0, P) for i in range(V)]
+        else:
+            # further units have concrete histories (the symbolic unit must not be affected by, nor affect, its neighbours)
+            dem = [10.0 * (i + 1) + u for i in range(V)]
+            gop = [7.0 * (i + 1) for i in range(V)]
+            oth = [1.0 * i for i in range(V)]
+            pev = [float(min(P, i + 1)) for i in range(V)]
+            if not getattr(ctx, "concrete", False):
+                # Sym constants: plain floats inside object arrays would divide the Python way (ZeroDivisionError instead of nan)
+                dem, gop, oth, pev = ([Sym(sym.RV(x)) for x in col_] for col_ in (dem, gop, oth, pev))
         turnout = [d + g + o for d, g, o in zip(dem, gop, oth)]
         w = [d + g for d, g in zip(dem, gop)]
         nm = [safe_div(d - g, ww) for d, g, ww in zip(dem, gop, w)]
